@@ -385,6 +385,7 @@ func init() {
 				globalsRule(c, "C09.R3")
 			}},
 			{ID: "C09.R4", Doc: "RESULT-FRESH: every deriving operation that returns a container returns one allocated inside the call on every return (never the receiver, its ego, the argument or an element)", Run: c09ResultFresh},
+			{ID: "C09.R5", Doc: "IMMUTABLE: a scalar wrapper's payload is written only while the wrapper is being built (a store through the allocation made in the same function); derived containers share wrappers with their sources, so a write into an existing wrapper would show in all of them", Run: func(c *Ctx) { c09Immutable(c, "C09.R5") }},
 		},
 	})
 	register(&Property{
@@ -398,8 +399,69 @@ func init() {
 			{ID: "C08.R3", Doc: "parseVal returns a container operand itself and allocates for everything else", Run: c08R3},
 			{ID: "C08.R4", Doc: "Clone returns exactly the result of copy() of the receiver / its ego", Run: c08R4},
 			{ID: "C08.R5", Doc: "OWN (package-wide): mutators write only spines of their receiver", Run: func(c *Ctx) { c.R.Floor("C08.R5", ownRule(c, "C08.R5"), 8) }},
+			{ID: "C08.R6", Doc: "scalar wrappers are immutable after construction (= C09.R5): scalar copy() may hand back a value and containers may share wrappers only because nobody writes them", Run: func(c *Ctx) { c09Immutable(c, "C08.R6") }},
 		},
 	})
+}
+
+// c09Immutable: every store into a scalar wrapper (a field of it, or the whole struct through a pointer) targets the allocation made
+// in the same function — the wrapper under construction. Anything else writes a wrapper that may already be stored in containers.
+func c09Immutable(c *Ctx, rule string) {
+	a := c.E3()
+	isWrapper := func(t types.Type) *types.Named {
+		p, ok := t.(*types.Pointer)
+		if !ok {
+			return nil
+		}
+		nt, ok := p.Elem().(*types.Named)
+		if !ok {
+			return nil
+		}
+		for _, w := range c.Inv().Wrappers {
+			if w.Obj() == nt.Obj() {
+				return nt
+			}
+		}
+		return nil
+	}
+	n := 0
+	var walk func(root, f *ssa.Function)
+	walk = func(root, f *ssa.Function) {
+		for _, b := range f.Blocks {
+			for _, in := range b.Instrs {
+				st, ok := in.(*ssa.Store)
+				if !ok {
+					continue
+				}
+				var target ssa.Value
+				var w *types.Named
+				if fa, isFA := st.Addr.(*ssa.FieldAddr); isFA {
+					if w = isWrapper(fa.X.Type()); w != nil {
+						target = fa.X
+					}
+				} else if w = isWrapper(st.Addr.Type()); w != nil {
+					target = st.Addr
+				}
+				if w == nil {
+					continue
+				}
+				n++
+				ob := c.Ob(rule, "wrapper-store/"+a.FuncName(root)+"#"+w.Obj().Name(), st.Pos())
+				if al, isAl := target.(*ssa.Alloc); isAl && al.Parent() == f {
+					ob.Ok("stores into the %s allocated in this function (construction)", w.Obj().Name())
+				} else {
+					ob.Fail("a %s that already exists is written: wrappers are shared between a container and the containers derived from it (SubList, Concat, NewListOf, copies of spines), so the write shows in all of them", w.Obj().Name())
+				}
+			}
+		}
+		for _, an := range f.AnonFuncs {
+			walk(root, an)
+		}
+	}
+	for _, fn := range a.fns {
+		walk(fn, fn)
+	}
+	c.R.Floor(rule, n, 4)
 }
 
 // c09ResultFresh: the container a deriving operation returns is FRESH on every return.
